@@ -335,12 +335,21 @@ func ruleC17Matrix(c *Ctx) {
 				return
 			}
 			hm := extractMatrix(c, h)
+			sliceForm := false
+			if len(hm) < 5 {
+				hm = extractSliceTable(h)
+				sliceForm = true
+			}
 			if len(hm) < 5 {
 				return
 			}
 			published := false
 			eachInstr(fn, func(x ssa.Instruction) {
-				if mu, ok := x.(*ssa.MapUpdate); ok && strings.HasSuffix(R.V(mu.Map), ".Actions") && R.V(mu.Key) == "key("+R.V(cl)+")" {
+				if mu, ok := x.(*ssa.MapUpdate); ok && strings.HasSuffix(R.V(mu.Map), ".Actions") && R.V(mu.Key) == "key("+R.V(cl)+")" && !sliceForm {
+					published = true
+				}
+				// the helper returns the list of allowed actions: every element is published
+				if mu, ok := x.(*ssa.MapUpdate); ok && strings.HasSuffix(R.V(mu.Map), ".Actions") && R.V(mu.Key) == R.V(cl)+"[*]" && sliceForm {
 					published = true
 				}
 			})
@@ -1013,4 +1022,74 @@ func ruleLivenessProbe(rule string) ruleFn {
 			c.Bad(rule, "replica/rest.NewRouter | /ping route", "", "no GET /ping route", nil)
 		}
 	}
+}
+
+// extractSliceTable: the state -> actions table written as a function that switches on its state
+// parameter and returns, per case, a slice literal of constants (`return []actionName{a, b}`); a
+// return of nil allows nothing.  Any other return makes the table unreadable (empty result).
+func extractSliceTable(h *ssa.Function) map[string]map[string]bool {
+	R := NewRenderer(h)
+	m := map[string]map[string]bool{}
+	bad := false
+	for _, r := range Returns(h) {
+		if len(r.Results) != 1 {
+			return nil
+		}
+		v := r.Results[0]
+		if isNilConst(v) {
+			continue
+		}
+		sl, ok := v.(*ssa.Slice)
+		if !ok || sl.Low != nil || sl.High != nil {
+			return nil
+		}
+		al, ok := sl.X.(*ssa.Alloc)
+		if !ok || al.Referrers() == nil {
+			return nil
+		}
+		state := ""
+		for _, a := range controlAtoms(h, R, r.Block()) {
+			if strings.HasPrefix(a, `+"`) && strings.HasSuffix(a, " ==0") && strings.Contains(a, `" -$`) {
+				state = a[2:strings.Index(a, `" -$`)]
+				break
+			}
+		}
+		if state == "" {
+			return nil
+		}
+		if m[state] == nil {
+			m[state] = map[string]bool{}
+		}
+		for _, ref := range *al.Referrers() {
+			ia, ok := ref.(*ssa.IndexAddr)
+			if !ok {
+				if ref != ssa.Instruction(sl) {
+					if _, dbg := ref.(*ssa.DebugRef); !dbg {
+						bad = true
+					}
+				}
+				continue
+			}
+			if ia.Referrers() == nil {
+				continue
+			}
+			for _, r2 := range *ia.Referrers() {
+				st, ok := r2.(*ssa.Store)
+				if !ok {
+					bad = true
+					continue
+				}
+				kc, ok := strip(st.Val).(*ssa.Const)
+				if !ok {
+					bad = true
+					continue
+				}
+				m[state][strings.Trim(constString(kc), `"`)] = true
+			}
+		}
+	}
+	if bad {
+		return nil
+	}
+	return m
 }
